@@ -397,6 +397,9 @@ func (g *Gen) genHelper() {
 			} else {
 				t = g.randValueType()
 			}
+			if !g.on("helper.aggregate-params") && !t.IsScalar() {
+				t = []*Type{I32, U32, F32, Bool}[r.Intn(4)]
+			}
 			p := &Var{Name: g.name("a"), Kind: VParam, Ty: t}
 			f.Params = append(f.Params, p)
 			fx.sc.vars = append(fx.sc.vars, p)
@@ -433,6 +436,9 @@ func (g *Gen) genHelper() {
 			}
 		} else {
 			t = g.randValueType()
+			if !g.on("helper.aggregate-params") && !t.IsScalar() {
+				t = []*Type{I32, U32, F32, Bool}[r.Intn(4)]
+			}
 		}
 		p := &Var{Name: g.name("a"), Kind: VParam, Ty: t}
 		f.Params = append(f.Params, p)
